@@ -1,5 +1,5 @@
 PROP = {
-    "regen_files": ["GenGuards.v", "GenHeap.v"],
+    "regen_files": ["GenGuards.v", "GenHeap.v", "GenSigs.v"],
     "num": 15,
     "runs": [
         {"tag": "c15", "bin": "c15"},
